@@ -159,7 +159,83 @@ def deposit_pool_index(v, model, operand, at, proj=()):
                             for r in resolve(model, chain, cv, cv.origins_of_operand(arg, at=cv.at_term(xb))):
                                 if r.kind == "call" and r.a.endswith("query_pools") and r.proj and r.proj[-1] == "info":
                                     found.add(r.proj[0])
+    if not found or found == {"?"}:
+        z = _zip_built_index(v, model, operand, at, proj)
+        if z is not None:
+            return [z]
     return sorted(found) or ["?"]
+
+
+def _zip_built_index(v, model, operand, at, proj=()):
+    """The deposits array filled position by position next to the pools:
+    `for (deposit, pool) in deposits.iter_mut().zip(pools.iter()) { .. if asset.info.equal(&pool.info) { m = Some(asset.amount) } ..; *deposit = m }`.
+    `zip` pairs equal positions, so deposits[k] is matched against pools[k] for every k: returns "[k]" for an operand that
+    reads element k of such an array, None when the pattern does not hold."""
+    from ..dataflow import call_of
+    from ..mir import switch_conds
+    # the array local and the constant index the operand reads
+    def locate(op, depth=0):
+        if op.get("k") not in ("copy", "move"):
+            return None
+        pl = op["pl"]
+        F = [x for x in list(v._named_fields(pl["p"])) + list(proj) if isinstance(x, str)]
+        idx = [x for x in F if re.fullmatch(r"\[\d+\]", x)]
+        if idx:
+            return pl["l"], idx[0]
+        if depth < 4 and not pl["p"]:
+            ds = v.defs().get(pl["l"], [])
+            if len(ds) == 1 and ds[0][0] == "s" and ds[0][3]["rv"]["r"] == "use":
+                return locate(ds[0][3]["rv"]["op"], depth + 1)
+            if len(ds) == 1 and ds[0][0] == "s" and ds[0][3]["rv"]["r"] == "ref":
+                return locate({"k": "copy", "pl": ds[0][3]["rv"]["pl"]}, depth + 1)     # `&deposits[k]` (a method receiver)
+        return None
+    loc = locate(operand)
+    if loc is None:
+        return None
+    arr, k = loc
+    roots = {arr} | v.alias_roots(arr)
+    for b, i, s_ in v.iter_stmts():
+        if s_["lhs"]["p"] != ["*"]:
+            continue
+        with v.opaque(r"Iterator>::next$"):
+            od = v.origins_of_place({"l": s_["lhs"]["l"], "p": []}, at=(b, i))
+        if len(od) != 1:
+            continue
+        o = next(iter(od))
+        c = call_of(v, o)
+        if not c or not mname(c[1]).endswith("Iterator>::next") or tuple(o.proj) != ("0",):
+            continue
+        nb, nt = c
+        with v.opaque(r"Iterator>::zip$"):
+            zo = v.origins_of_operand(nt["args"][0], at=v.at_term(nb))
+        zs = [call_of(v, x) for x in zo if x.kind == "call" and x.a.endswith("Iterator>::zip")]
+        if len(zs) != 1 or zs[0] is None:
+            continue
+        zb, zt = zs[0]
+        with v.opaque(r"std::slice::iter_mut$"):
+            mo = v.origins_of_operand(zt["args"][0], at=v.at_term(zb))
+        ims = [call_of(v, x) for x in mo if x.kind == "call" and x.a.endswith("slice::iter_mut")]
+        if len(ims) != 1 or ims[0] is None or ims[0][1]["args"][0].get("k") not in ("copy", "move"):
+            continue
+        a0l = ims[0][1]["args"][0]["pl"]["l"]
+        if not (({a0l} | v.alias_roots(a0l)) & roots):
+            continue
+        partner = v.origins_of_operand(zt["args"][1], at=v.at_term(zb))
+        if not (partner and all(x.kind == "call" and x.a.endswith("query_pools") for x in partner)):
+            continue
+        # the value written derives from an asset's amount, selected by equality with the zip partner's info
+        val = v.origins_of_operand(s_["rv"]["op"], at=(b, i), taint=True) if s_["rv"]["r"] == "use" else set()
+        if not any(x.kind == "param" and x.proj and x.proj[-1] == "amount" for x in val):
+            continue
+        for sb, cnd, _ in switch_conds(v):
+            if cnd.kind != "call" or not cnd.callee.endswith("AssetInfo::equal"):
+                continue
+            for arg in cnd.term["args"]:
+                with v.opaque(r"Iterator>::next$"):
+                    ao = v.origins_of_operand(arg, at=v.at_term(cnd.block))
+                if ao and all(x.kind == "call" and x.b == o.b and tuple(x.proj[:1]) == ("1",) and x.proj[-1] == "info" for x in ao):
+                    return k
+    return None
 
 
 def loop_bounds(v):
